@@ -5,13 +5,13 @@ CONFIG = {
         "name": "eval", "pkg": "./ledger/eval/", "run": "^TestVerifC18$",
         "files": ["ledger/eval/zz_verif_c18_test.go"],
         "util": [("ledger/eval", "eval")],
-        "env": {"quick": {"VERIF_C18_UNIVERSES": 120, "VERIF_C18_BLOCKS": 6, "VERIF_C18_GROUPS": 10},
-                "thorough": {"VERIF_C18_UNIVERSES": 4000, "VERIF_C18_BLOCKS": 8, "VERIF_C18_GROUPS": 12}},
+        "env": {"quick": {"VERIF_C18_UNIVERSES": 90, "VERIF_C18_BLOCKS": 8, "VERIF_C18_GROUPS": 10},
+                "thorough": {"VERIF_C18_UNIVERSES": 3000, "VERIF_C18_BLOCKS": 10, "VERIF_C18_GROUPS": 12}},
         "timeout": {"quick": 600, "thorough": 3000},
     }],
     "rule": "one case = one block of the real BlockEvaluator over a closed 9-account ledger (fee sink, rewards pool, offline / online / "
             "non-participating / rekeyed / near-minimum / empty / resource-laden accounts; rewards rate none, protocol default or brisk): "
-            "StartEvaluator, up to 10-12 random groups of 1..17 payment / close / keyreg / rekey / asset config / asset transfer (opt-in, clawback, close-out) / asset freeze transactions (a share with an injected "
+            "StartEvaluator, up to 10-12 random groups of 1..17 payment / close / keyreg / rekey / asset config / asset transfer (opt-in, clawback, close-out) / asset freeze transactions and application calls (create, fund, NoOp / OptIn / CloseOut / ClearState / Delete; the program is a fixed interpreter, assembled by the real assembler, that executes its arguments as a script of box_create / box_del / box_resize / app_global_put / del / app_local_put / del / inner payments / inner asset transfers / err / reject / budget exhaustion) (a share with an injected "
             "failing member), GenerateBlock, proposer + payout, eval.Eval(validate) and commit; observed: the full account table after "
             "every step.  spec_ok = the sum of balances with pending rewards is the same in every observed table of the block "
             "(previous level for the previous round's table).  Non-trivial = at least one accepted group paying a fee; distinct = distinct case lines.",
@@ -19,8 +19,10 @@ CONFIG = {
     "explanation": "theorems hold for every block (any number of groups, any sizes, any amounts below 2^64, any consensus parameters with RewardUnit > 0) "
                    "of the modelled transaction types, and for every history of such blocks (C18_history_conserves); the correspondence run ties the model to the Go code on random blocks",
     "assumptions": [
-        "transaction types: payment (with close), key registration, rekey, asset config / transfer / freeze, fees; application calls (hence inner "
-        "transactions), heartbeats and state proofs are EXCLUDED from this version (DESIGN's over-approximation of programs by AppOps scripts is not built)",
+        "transaction types: payment (with close), key registration, rekey, asset config / transfer / freeze, application calls with programs "
+        "over-approximated as arbitrary scripts of ledger operations (boxes, global / local state, inner payment / asset config / transfer / freeze) "
+        "ending in approve / reject / failure; NOT modelled: inner application calls (call depth > 1), UpdateApplication, inner rekey / keyreg, "
+        "heartbeats, state proofs, the AVM's fee-credit test for inner groups and its resource-availability rules (the harness stays inside them)",
         "prevTotals.RewardUnits() equals the reward units of the participating accounts (AccountTotals correctness is C12; the harness checks it on every case)",
         "the new rewards level is the one NextRewardsState computes (C25), the proposer payout the one validateForPayouts admits (C24), "
         "the expired / absent lists are justified (C27); the model takes them as inputs",
@@ -29,7 +31,8 @@ CONFIG = {
     ],
     "trusted_base": [
         "modelled: ledger/eval/cow.go, eval.go (Move, takeFee, applyTransaction, transaction, TransactionGroup, StartEvaluator pool withdrawal, "
-        "endOfBlock resets / payout / recordProposal), cow_creatables.go, assetcow.go, ledger/apply/payment.go, keyreg.go, asset.go, apply.go:Rekey, "
+        "endOfBlock resets / payout / recordProposal), cow_creatables.go, assetcow.go, appcow.go (StatefulEval, Allocate/DeallocateApp, setKey/delKey), applications.go (NewBox / DelBox / Perform), "
+        "ledger/apply/payment.go, keyreg.go, asset.go, application.go, apply.go:Rekey, "
         "basics.WithUpdatedRewards / MinBalance "
         "as Gallina (coq/model/EvalCow.v, EvalApply.v, EvalGroup.v)",
         "harness ledger: a scripted in-memory LedgerForEvaluator (vc18Ledger) instead of the SQLite-backed ledger; Transaction.WellFormed, "
